@@ -8,6 +8,11 @@ let rec nat_of_int n = if n <= 0 then M.O else M.S (nat_of_int (n - 1))
 
 let c05_k = try int_of_string (Sys.getenv "VERIF_C05_K") with _ -> 6
 let c05_fuel = try int_of_string (Sys.getenv "VERIF_C05_FUEL") with _ -> 400
+(* value-level simulation: number of salts of the free interpretation, machine fuel, source fuel *)
+let c05v_salts = try int_of_string (Sys.getenv "VERIF_C05V_SALTS") with _ -> 4
+let c05v_nflat = try int_of_string (Sys.getenv "VERIF_C05V_NFLAT") with _ -> 1200
+let c05v_nsrc = try int_of_string (Sys.getenv "VERIF_C05V_NSRC") with _ -> 300
+let salts_list = List.init c05v_salts (fun i -> Driver.n_of_z (Z.of_int (1 + 7 * i)))
 
 let run_all (p : M.program) (o : M.output) : string =
   let accepted = o.M.o_errors = [] in
@@ -47,4 +52,7 @@ let run_all (p : M.program) (o : M.output) : string =
       "C10r:" ^ (if dom then b2s (M.chk_C10_resolve o) else "-");
       "C11:" ^ (if dom then b2s (M.chk_C11 p o) else "-");
       "C05q:" ^ (if dom then b2s (M.chk_C05 true k fuel p o) else "-");
-      "C05i:" ^ (if dom then b2s (M.chk_C05 false k fuel p o) else "-") ]
+      "C05i:" ^ (if dom then b2s (M.chk_C05 false k fuel p o) else "-");
+      (* the same with data: register machine on the stack vs source semantics, under the fingerprint
+         interpretation (constant-size values) *)
+      "C05v:" ^ (if dom && c05v_salts > 0 then b2s (M.chk_C05h salts_list (nat_of_int c05v_nflat) (nat_of_int c05v_nsrc) p o) else "-") ]
